@@ -16,6 +16,11 @@ CHECKS = {
          "Every program of the C01 sets is serialised with Bytecode::new at budgets that force memory traffic and executed by an interpreter written only from the format documentation (opcode numbers by name from iter_ops); outputs must equal the VM's bit-for-bit and every structural promise (markers, word count, register/memory bounds, reserved register) is checked on every bytecode.",
          "Trusted: the documentation-only interpreter and ref32; the WGSL consumer is not executed.",
          "DESIGN.md §4 C15"),
+ "C20": ("model_checking",
+         "bounded-exhaustive enumeration of choice programs x points x boxes on VM and JIT tracing evaluators, vs. a reference interpreter over the register tape",
+         "Every DAG of min/max/and/or clauses up to the node bound and chains of up to 200 clauses are evaluated by the VM (two budgets) and JIT point evaluators at every point of a special-value grid and by both interval evaluators on every box of an endpoint grid; each trace must have one Left/Right/Both entry per clause equal to what the operand values (from a reference interpreter over the emitted tape) or the evaluator's own operand intervals (exported as outputs) imply, be absent only if all clauses are undecided, and agree between VM and JIT; output-array shapes and function-vs-tape metadata are checked on every program.",
+         "Trusted: RegOp decoding and ref32; touching operand intervals admit either answer; x86_64 JIT only.",
+         "DESIGN.md §4 C20"),
 }
 
 NOT_YET = "check not built yet in this round (see DESIGN.md build order); no claim is made"
